@@ -86,6 +86,13 @@ def parseLeaf (j : Json) : Option (Op C) := do
       | none => big
     let exact ← fBool? j "exact"
     let ev := scatterAddDrop np (d0 * d1) (fun p => flat2 d0 d1 (fa p) (fb p)) w
+    -- slab loop of the code (`MAX_SLICE_LEN`): `B` voxels per slab
+    match fNat? j "B", fNat? j "nslab" with
+    | some B, some nslab =>
+      return (if (fBool? j "nooffset").getD false then
+          Op.scatSlabNoOffset B nslab np (d0 * d1) (fun p => flat2 d0 d1 (fa p) (fb p)) (fun p => clamp2 d0 d1 (fa p) (fb p)) w
+        else Op.scatSlab B nslab np (d0 * d1) (fun p => flat2 d0 d1 (fa p) (fb p)) (fun p => clamp2 d0 d1 (fa p) (fb p)) w)
+    | _, _ => pure ()
     some (if exact then
         ({ nin := np, nout := d0 * d1, eval := ev,
            adj := gatherFill0 (d0 * d1) (fun p => flat2 d0 d1 (fa p) (fb p)) w } : Op C)
